@@ -43,6 +43,8 @@ pub enum RefEnum {
     Nothing,
     One(Entity),
     Two { a: Entity, b: Entity, n: i16 },
+    /// a tuple variant with two fields of the same type: their order must survive the conversion
+    Pair(Entity, Entity),
 }
 impl Component for RefEnum {
     type Storage = DenseVecStorage<Self>;
@@ -486,8 +488,13 @@ fn build_src<K: MarkerKind>(case: &SaveCase) -> Result<Src, Violation> {
                     }
                     RefSpec::Two(a, b, k) => {
                         if let (Some(ta), Some(tb)) = (tgt(*a), tgt(*b)) {
-                            re.insert(ents[i], RefEnum::Two { a: ents[ta], b: ents[tb], n: *k }).unwrap();
-                            m_refe[i] = Some((2, vec![ta, tb], *k));
+                            if *k % 3 == 0 {
+                                re.insert(ents[i], RefEnum::Pair(ents[ta], ents[tb])).unwrap();
+                                m_refe[i] = Some((3, vec![ta, tb], 0));
+                            } else {
+                                re.insert(ents[i], RefEnum::Two { a: ents[ta], b: ents[tb], n: *k }).unwrap();
+                                m_refe[i] = Some((2, vec![ta, tb], *k));
+                            }
                         }
                     }
                 }
@@ -628,7 +635,8 @@ fn c14_one<K: MarkerKind>(case: &SaveCase) -> Result<SaveFacts, Violation> {
         let wante = m_refe[*i].as_ref().map(|(k, ts, nn)| match k {
             0 => RefEnum::Nothing,
             1 => RefEnum::One(dst_of(ts[0])),
-            _ => RefEnum::Two { a: dst_of(ts[0]), b: dst_of(ts[1]), n: *nn },
+            2 => RefEnum::Two { a: dst_of(ts[0]), b: dst_of(ts[1]), n: *nn },
+            _ => RefEnum::Pair(dst_of(ts[0]), dst_of(ts[1])),
         });
         ensure!("C14", "entity-reference-enum", re.get(d) == wante.as_ref(), "entity with marker {:?}: RefEnum is {:?}, expected {:?}", src_ids[*i], re.get(d), wante);
     }
